@@ -331,8 +331,8 @@ def extract_geometry(chk, repo):
             g = e.guards[-1][0].as_atom()
             if d is not None and g and g[0] == "lt" and g[1] == P.const(0) and g[2].key().startswith("self.v"):
                 bits[int(d).bit_length() - 1] = g[2].key()[len("self."):]
-    chk.need(sorted(bits) == list(range(8)) and all(bits[k] == f"v{k}" for k in range(8)),
-             f"Cell.set_cube: bit k of the index is not 'v_k > 0': {bits}")
+    chk.need(sorted(bits) == list(range(8)) and sorted(bits.values()) == [f"v{k}" for k in range(8)],
+             f"Cell.set_cube: the 8 bits of the index are not one 'v_k > 0' test each: {bits}")
     # corner positions: driver passes im[z+dz, y+dy, x+dx] for v0..v7
     dv = pyx.ev("marching_cubes")
     sc = [e for e in dv.events if e.kind == "call" and call_name(e.value.as_atom() or ()) == ".set_cube"]
@@ -358,6 +358,9 @@ def extract_geometry(chk, repo):
             else:
                 raise AnalysisError(f"corner offset not 0 or step: {d}")
         corner_pos.append(tuple(pos))
+    # corner_pos is indexed by the v-number; re-index it by the bit that carries that corner's sign
+    by_v = list(corner_pos)
+    corner_pos = [by_v[int(bits[b][1:])] for b in range(8)]
     # edges from EDGETORELATIVEPOS*
     rel = {}
     for ax, nm in enumerate(("EDGETORELATIVEPOSX", "EDGETORELATIVEPOSY", "EDGETORELATIVEPOSZ")):
@@ -378,7 +381,7 @@ def extract_geometry(chk, repo):
             i = e.target.as_atom()[2][0].const_value()
             if i is not None and e.value.key().startswith("self.v"):
                 vv[int(i)] = int(e.value.key()[len("self.v"):])
-    ok_perm = all(corner_pos[vv[i]] == (i & 1, (i >> 1) & 1, (i >> 2) & 1) for i in range(8)) if len(vv) == 8 else False
+    ok_perm = all(by_v[vv[i]] == (i & 1, (i >> 1) & 1, (i >> 2) & 1) for i in range(8)) if len(vv) == 8 else False
     return corner_pos, edge_ends, ok_perm, vv
 
 
